@@ -382,50 +382,72 @@ theorem addRest_ok (r : Rows) (todo done : List Column)
 
 /-! ## the whole serialization on a valid series -/
 
-/-- a series the property speaks about, Epoch first: int64 `Epoch` column in front, distinct
-names, every column `n` elements of its type's size, no second column folding to "epoch" -/
+/-- the columns of a valid series in record order: int64 `Epoch` column `e`, then the others;
+distinct names, every column `e.elems.length` elements of its type's size -/
 structure ValidEF (e : Column) (rest : List Column) : Prop where
   ename : e.name = "Epoch"
   etyp : e.typ = INT64
   nodup : ((e :: rest).map (·.name)).Nodup
   wf : ∀ c ∈ e :: rest, c.WF e.elems.length
-  noalias : ∀ c ∈ rest, equalFoldEpoch c.name = false
 
-theorem getMissing_self (shapes : List DataShape) (h : shapes ≠ []) :
-    getMissingAndTypeCoercionColumns shapes shapes = .ok ([], []) := by
+/-- pinned: the current `SerializeColumnsToRows` matches the Epoch column by its exact name -/
+theorem epochExact_true : epochExact = true := by decide
+
+theorem isEpochName_eq (n : String) : isEpochName n = (n == "Epoch") := by
+  simp [isEpochName, epochExact_true]
+
+theorem ValidEF.rest_ne {e : Column} {rest : List Column} (hv : ValidEF e rest) :
+    ∀ c ∈ rest, c.name ≠ "Epoch" := by
+  intro c hc h
+  have := hv.nodup
+  simp only [List.map_cons, List.nodup_cons, hv.ename] at this
+  exact this.1 (List.mem_map.mpr ⟨c, hc, h⟩)
+
+theorem getMissing_sub (required available : List DataShape) (hne : required ≠ [])
+    (hsub : ∀ s ∈ required, s ∈ available) :
+    getMissingAndTypeCoercionColumns required available = .ok ([], []) := by
   unfold getMissingAndTypeCoercionColumns
-  have h1 : shapes.isEmpty = false := by cases shapes <;> simp_all
-  simp [h1]
+  have h1 : required.isEmpty = false := by cases required <;> simp_all
+  have h0 : available.isEmpty = false := by
+    cases required with
+    | nil => exact absurd rfl hne
+    | cons r _ => cases available with
+      | nil => exact absurd (hsub r (by simp)) (by simp)
+      | cons _ _ => rfl
+  have h2 : required.all (fun s => available.contains s) = true := by
+    rw [List.all_eq_true]; intro x hx; simpa using hsub x hx
+  simp only [h0, h1, h2, Bool.false_eq_true, if_false, Bool.not_false, Bool.and_self, if_true]
 
 theorem colInBytesList_ok (cols : List Column) (incr : List (String × Nat))
-    (hnd : (cols.map (·.name)).Nodup) :
-    colInBytesList ⟨cols, incr⟩ (cols.map toShape) = .ok (cols.map (fun c => c.elems.flatten)) := by
+    (hnd : (cols.map (·.name)).Nodup) (sel : List Column) (hsel : ∀ c ∈ sel, c ∈ cols) :
+    colInBytesList ⟨cols, incr⟩ (sel.map toShape) = .ok (sel.map (fun c => c.elems.flatten)) := by
   unfold colInBytesList
   apply mapM_map_ok
   intro c hc
-  simp only [toShape, ColumnSeries.find?, find_of_nodup cols hnd c hc]
+  simp only [toShape, ColumnSeries.find?, find_of_nodup cols hnd c (hsel c hc)]
   rfl
 
 theorem wordList_cons (c : Column) (l : List Column) :
     wordList ((c :: l).map toShape) ((c :: l).map (fun c => c.elems.flatten)) =
-      (if equalFoldEpoch c.name then [] else [(typeSize c.typ, c.elems.flatten)]) ++
+      (if c.name == "Epoch" then [] else [(typeSize c.typ, c.elems.flatten)]) ++
         wordList (l.map toShape) (l.map (fun c => c.elems.flatten)) := by
   unfold wordList
   rw [List.map_cons, List.map_cons, List.zip_cons_cons, List.filter_cons]
-  cases h : equalFoldEpoch c.name <;> simp [toShape, h]
+  cases h : (c.name == "Epoch") <;> simp [toShape, isEpochName_eq, h]
 
-theorem wordList_noalias (l : List Column) (hna : ∀ c ∈ l, equalFoldEpoch c.name = false) :
+theorem wordList_others (l : List Column) (hna : ∀ c ∈ l, c.name ≠ "Epoch") :
     wordList (l.map toShape) (l.map (fun c => c.elems.flatten)) = wordsOf l := by
   induction l with
   | nil => rfl
   | cons c t ih =>
-    rw [wordList_cons, ih (fun x hx => hna x (by simp [hx])), hna c (by simp)]
+    have : (c.name == "Epoch") = false := by simpa using hna c (by simp)
+    rw [wordList_cons, ih (fun x hx => hna x (by simp [hx])), this]
     rfl
 
 theorem wordList_ok (e : Column) (rest : List Column) (he : e.name = "Epoch")
-    (hna : ∀ c ∈ rest, equalFoldEpoch c.name = false) :
+    (hna : ∀ c ∈ rest, c.name ≠ "Epoch") :
     wordList ((e :: rest).map toShape) ((e :: rest).map (fun c => c.elems.flatten)) = wordsOf rest := by
-  rw [wordList_cons, wordList_noalias rest hna, he, equalFoldEpoch_Epoch]
+  rw [wordList_cons, wordList_others rest hna, he]
   rfl
 
 /-- record length: 8 (Epoch) + the other fields, aligned up to 8 when requested -/
@@ -440,27 +462,35 @@ theorem recLen_ge (rest : List Column) (align : Bool) : 8 + sizesOf rest ≤ rec
   · exact alignedSize_ge _
   · exact Nat.le_refl _
 
-theorem serialize_ok (e : Column) (rest : List Column) (incr : List (String × Nat)) (align : Bool)
-    (hv : ValidEF e rest) :
-    serializeColumnsToRows ⟨e :: rest, incr⟩ ((e :: rest).map toShape) align =
+/-- serializing the series `cols` with the shapes `e :: rest` (all of them columns of the series,
+in any order of the series) -/
+theorem serialize_ok (cols : List Column) (incr : List (String × Nat)) (e : Column) (rest : List Column)
+    (align : Bool) (hv : ValidEF e rest) (hnd : (cols.map (·.name)).Nodup)
+    (hsub : ∀ c ∈ e :: rest, c ∈ cols) :
+    serializeColumnsToRows ⟨cols, incr⟩ ((e :: rest).map toShape) align =
       .ok ((rowsFrom rest (recLen rest align - (8 + sizesOf rest)) e.elems 0).flatten, recLen rest align) := by
   have hshape : shapesLen ((e :: rest).map toShape) = 8 + sizesOf rest := by
     rw [sizesOf_eq]; simp only [sizesOf, List.map_cons, List.sum_cons, hv.etyp, typeSize_INT64]
   have hrl : recordLenOf ((e :: rest).map toShape) align = recLen rest align := by
     unfold recordLenOf recLen; rw [hshape]
-  have hany : ((e :: rest).map toShape).any (fun s => equalFoldEpoch s.name) = true := by
-    simp [toShape, hv.ename, equalFoldEpoch_Epoch]
-  have hep : epochColumn ⟨e :: rest, incr⟩ = .ok e.elems := by
+  have hany : ((e :: rest).map toShape).any (fun s => isEpochName s.name) = true := by
+    simp [toShape, hv.ename, isEpochName_eq]
+  have hep : epochColumn ⟨cols, incr⟩ = .ok e.elems := by
     unfold epochColumn ColumnSeries.find?
-    simp [hv.ename, hv.etyp]
+    have := find_of_nodup cols hnd e (hsub e (by simp))
+    rw [hv.ename] at this
+    simp only [this, hv.etyp, beq_self_eq_true, if_true]
     rfl
   have hrest : ∀ c ∈ rest, c.WF e.elems.length := fun c hc => hv.wf c (by simp [hc])
   unfold serializeColumnsToRows
-  have hds : (ColumnSeries.mk (e :: rest) incr).getDataShapes = (e :: rest).map toShape := rfl
-  rw [hds, getMissing_self _ (by simp)]
+  have hds : (ColumnSeries.mk cols incr).getDataShapes = cols.map toShape := rfl
+  rw [hds, getMissing_sub _ _ (by simp) (by
+    intro s hs
+    obtain ⟨c, hc, rfl⟩ := List.mem_map.mp hs
+    exact List.mem_map.mpr ⟨c, hsub c hc, rfl⟩)]
   simp only [bind, Except.bind, List.isEmpty_nil, Bool.not_true, Bool.false_eq_true, if_false,
-    List.foldlM_nil, pure, Except.pure, colInBytesList_ok (e :: rest) incr hv.nodup, hany, hep, hrl, hshape,
-    wordList_ok e rest hv.ename hv.noalias,
+    List.foldlM_nil, pure, Except.pure, colInBytesList_ok cols incr hnd (e :: rest) hsub, hany, hep, hrl, hshape,
+    wordList_ok e rest hv.ename hv.rest_ne,
     serializeLoop_ok rest e.elems.length _ hrest e.elems 0 (by omega)]
 
 /-! ## reading the records back -/
@@ -602,51 +632,123 @@ theorem addRest_valid (e : Column) (rest : List Column) (align : Bool) (hv : Val
   rw [this, List.map_cons, retype_epoch e hv.ename hv.etyp]
   rfl
 
-theorem roundTrip_valid (e : Column) (rest : List Column) (incr : List (String × Nat)) (align : Bool)
-    (hv : ValidEF e rest) (hty : ∀ c ∈ rest, (getterTable.lookup c.typ).isSome) :
-    roundTrip ⟨e :: rest, incr⟩ align = .ok ⟨(e :: rest).map retype, []⟩ := by
-  unfold roundTrip
-  have hds : (ColumnSeries.mk (e :: rest) incr).getDataShapes = (e :: rest).map toShape := rfl
-  simp only [hds, serialize_ok e rest incr align hv, bind, Except.bind]
-  show (newRowSeries (rowsOf e rest align).data ((e :: rest).map toShape) (recLen rest align)
-    Mkts.Extracted.utils_io_NOTYPE.toNat).rowSeriesToColumnSeries = _
-  rw [newRowSeries_valid e rest align hv]
-  unfold Rows.rowSeriesToColumnSeries
-  rw [readEpoch_valid e rest align hv]
-  exact addRest_valid e rest align hv hty
+/-! ## `ToRowSeries`: the Epoch shape goes first -/
 
-theorem roundTripRows_valid (e : Column) (rest : List Column) (incr : List (String × Nat)) (align : Bool)
-    (hv : ValidEF e rest) (hty : ∀ c ∈ rest, (getterTable.lookup c.typ).isSome) :
-    roundTripRows ⟨e :: rest, incr⟩ align = .ok ⟨(e :: rest).map retype, []⟩ := by
+/-- pinned: the current `ToRowSeries` reorders the shapes -/
+theorem toRowSeriesReorders_true : toRowSeriesReorders = true := by decide
+
+theorem splitEpoch_none (l : List Column) (h : ∀ c ∈ l, c.name ≠ "Epoch") :
+    splitEpoch (l.map toShape) = none := by
+  induction l with
+  | nil => rfl
+  | cons c t ih =>
+    have : (c.name == "Epoch") = false := by simpa using h c (by simp)
+    simp only [List.map_cons, splitEpoch, toShape, this, Bool.false_eq_true, if_false]
+    have := ih (fun x hx => h x (by simp [hx]))
+    rw [this]; rfl
+
+theorem splitEpoch_hit (p : List Column) (h : ∀ c ∈ p, c.name ≠ "Epoch") (e : Column)
+    (he : e.name = "Epoch") (q : List Column) :
+    splitEpoch ((p ++ e :: q).map toShape) = some (p.map toShape, toShape e, q.map toShape) := by
+  induction p with
+  | nil => simp [splitEpoch, toShape, he]
+  | cons c t ih =>
+    have hc : (c.name == "Epoch") = false := by simpa using h c (by simp)
+    have := ih (fun x hx => h x (by simp [hx]))
+    simp only [List.cons_append, List.map_cons, splitEpoch]
+    simp only [toShape, hc, Bool.false_eq_true, if_false]
+    rw [this]; rfl
+
+theorem nodup_middle (pre post : List Column) (e : Column)
+    (hnd : ((pre ++ e :: post).map (·.name)).Nodup) : ((e :: (pre ++ post)).map (·.name)).Nodup :=
+  ((List.perm_middle (l₁ := pre) (l₂ := post) (a := e)).map (·.name)).nodup_iff.mp hnd
+
+theorem epochShapeFirst_split (pre post : List Column) (e : Column) (he : e.name = "Epoch")
+    (hnd : ((pre ++ e :: post).map (·.name)).Nodup) :
+    epochShapeFirst ((pre ++ e :: post).map toShape) = (e :: (pre ++ post)).map toShape := by
+  have hnd' := nodup_middle pre post e hnd
+  have hothers : ∀ c ∈ pre ++ post, c.name ≠ "Epoch" := by
+    intro c hc h
+    simp only [List.map_cons, List.nodup_cons, he] at hnd'
+    exact hnd'.1 (List.mem_map.mpr ⟨c, hc, h⟩)
+  cases pre with
+  | nil =>
+    simp only [List.nil_append, List.map_cons, epochShapeFirst]
+    rw [splitEpoch_none post (fun c hc => hothers c (by simp [hc]))]
+  | cons s p =>
+    simp only [List.cons_append, List.map_cons, epochShapeFirst]
+    rw [splitEpoch_hit p (fun c hc => hothers c (by simp [hc])) e he post]
+    simp [List.map_append]
+
+theorem toRowSeriesShapes_split (pre post : List Column) (e : Column) (incr : List (String × Nat))
+    (he : e.name = "Epoch") (hnd : ((pre ++ e :: post).map (·.name)).Nodup) :
+    toRowSeriesShapes ⟨pre ++ e :: post, incr⟩ = (e :: (pre ++ post)).map toShape := by
+  unfold toRowSeriesShapes
+  rw [toRowSeriesReorders_true]
+  exact epochShapeFirst_split pre post e he hnd
+
+theorem roundTrip_valid (pre post : List Column) (e : Column) (incr : List (String × Nat)) (align : Bool)
+    (hv : ValidEF e (pre ++ post)) (hnd : ((pre ++ e :: post).map (·.name)).Nodup)
+    (hty : ∀ c ∈ pre ++ post, (getterTable.lookup c.typ).isSome) :
+    roundTrip ⟨pre ++ e :: post, incr⟩ align = .ok ⟨(e :: (pre ++ post)).map retype, []⟩ := by
+  have hsub : ∀ c ∈ e :: (pre ++ post), c ∈ pre ++ e :: post := by
+    intro c hc; simp only [List.mem_cons, List.mem_append] at hc ⊢
+    rcases hc with h | h | h
+    · exact Or.inr (Or.inl h)
+    · exact Or.inl h
+    · exact Or.inr (Or.inr h)
+  unfold roundTrip
+  simp only [toRowSeriesShapes_split pre post e incr hv.ename hnd,
+    serialize_ok _ incr e (pre ++ post) align hv hnd hsub, bind, Except.bind]
+  show (newRowSeries (rowsOf e (pre ++ post) align).data ((e :: (pre ++ post)).map toShape) (recLen (pre ++ post) align)
+    Mkts.Extracted.utils_io_NOTYPE.toNat).rowSeriesToColumnSeries = _
+  rw [newRowSeries_valid e _ align hv]
+  unfold Rows.rowSeriesToColumnSeries
+  rw [readEpoch_valid e _ align hv]
+  exact addRest_valid e _ align hv hty
+
+theorem roundTripRows_valid (pre post : List Column) (e : Column) (incr : List (String × Nat)) (align : Bool)
+    (hv : ValidEF e (pre ++ post)) (hnd : ((pre ++ e :: post).map (·.name)).Nodup)
+    (hty : ∀ c ∈ pre ++ post, (getterTable.lookup c.typ).isSome) :
+    roundTripRows ⟨pre ++ e :: post, incr⟩ align = .ok ⟨(e :: (pre ++ post)).map retype, []⟩ := by
+  have hsub : ∀ c ∈ e :: (pre ++ post), c ∈ pre ++ e :: post := by
+    intro c hc; simp only [List.mem_cons, List.mem_append] at hc ⊢
+    rcases hc with h | h | h
+    · exact Or.inr (Or.inl h)
+    · exact Or.inl h
+    · exact Or.inr (Or.inr h)
   unfold roundTripRows
-  have hds : (ColumnSeries.mk (e :: rest) incr).getDataShapes = (e :: rest).map toShape := rfl
-  simp only [hds, serialize_ok e rest incr align hv, bind, Except.bind]
-  show (newRows ((e :: rest).map toShape) (rowsOf e rest align).data (recLen rest align)).toColumnSeries = _
-  rw [newRows_valid e rest align hv]
+  simp only [toRowSeriesShapes_split pre post e incr hv.ename hnd,
+    serialize_ok _ incr e (pre ++ post) align hv hnd hsub, bind, Except.bind]
+  show (newRows ((e :: (pre ++ post)).map toShape) (rowsOf e (pre ++ post) align).data
+    (recLen (pre ++ post) align)).toColumnSeries = _
+  rw [newRows_valid e _ align hv]
   unfold Rows.toColumnSeries
-  have hget : (rowsOf e rest align).getColumn "Epoch" = .ok (some (INT64, e.elems)) := by
+  have hget : (rowsOf e (pre ++ post) align).getColumn "Epoch" = .ok (some (INT64, e.elems)) := by
     unfold Rows.getColumn
-    have : (rowsOf e rest align).dataShape = toShape e :: rest.map toShape := rfl
+    have : (rowsOf e (pre ++ post) align).dataShape = toShape e :: (pre ++ post).map toShape := rfl
     rw [this, ← hv.ename, walk_hit _ e _ _ INT64 8 (by rw [hv.etyp]; exact lookup_INT64),
-      readEpoch_valid e rest align hv]
+      readEpoch_valid e _ align hv]
     rfl
   rw [hget]
   simp only [bind, Except.bind, beq_self_eq_true, if_true]
-  exact addRest_valid e rest align hv hty
+  exact addRest_valid e _ align hv hty
 
-/-- shapes of `GetColumn`'s switch other than BOOL and BYTE keep their element type -/
+/-- pinned: the current `Rows.GetColumn` reads BYTE shapes as `[]int8` -/
+theorem byteTyped_true : byteTyped = true := by decide
+
+/-- every shape of `GetColumn`'s switch except BOOL keeps its element type -/
 theorem getterTable_types :
-    getterTable.all (fun p => p.1 == BYTE || p.1 == BOOL || p.2.1 == p.1) = true := by decide
+    getterTable.all (fun p => p.1 == BOOL || p.2.1 == p.1) = true := by decide
 
-theorem readType_eq (t : Nat) (h : (getterTable.lookup t).isSome) (h1 : t ≠ BYTE) (h2 : t ≠ BOOL) :
+theorem readType_eq (t : Nat) (h : (getterTable.lookup t).isSome) (h2 : t ≠ BOOL) :
     readType t = t := by
   obtain ⟨v, hv⟩ := Option.isSome_iff_exists.mp h
   have hm := lookup_some_mem _ _ _ hv
   have := List.all_eq_true.mp getterTable_types _ hm
   simp only [Bool.or_eq_true, beq_iff_eq] at this
   simp only [readType, hv]
-  rcases this with (h | h) | h
-  · exact absurd h h1
+  rcases this with h | h
   · exact absurd h h2
   · exact h
 
@@ -669,44 +771,69 @@ def ValidSeries (cs : ColumnSeries) : Prop :=
 
 instance (cs : ColumnSeries) : Decidable (ValidSeries cs) := by unfold ValidSeries; infer_instance
 
-/-- hypothesis `epoch_first`: the first column is `Epoch` -/
+/-- hypothesis `no_bool`: no column of element type BOOL -/
+def no_bool (cs : ColumnSeries) : Prop := ∀ c ∈ cs.cols, c.typ ≠ BOOL
+/-- the first column is `Epoch` -/
 def epoch_first (cs : ColumnSeries) : Prop := (cs.cols.head?.map (·.name)) = some "Epoch"
-/-- hypothesis `no_int8_bool`: no column of element type BYTE (`[]int8`) or BOOL -/
-def no_int8_bool (cs : ColumnSeries) : Prop := ∀ c ∈ cs.cols, c.typ ≠ BYTE ∧ c.typ ≠ BOOL
-/-- hypothesis `no_epoch_alias`: no column other than `Epoch` is named "epoch" up to case -/
-def no_epoch_alias (cs : ColumnSeries) : Prop :=
-  ∀ c ∈ cs.cols, c.name ≠ "Epoch" → equalFoldEpoch c.name = false
 
+instance (cs : ColumnSeries) : Decidable (no_bool cs) := by unfold no_bool; infer_instance
 instance (cs : ColumnSeries) : Decidable (epoch_first cs) := by unfold epoch_first; infer_instance
-instance (cs : ColumnSeries) : Decidable (no_int8_bool cs) := by unfold no_int8_bool; infer_instance
-instance (cs : ColumnSeries) : Decidable (no_epoch_alias cs) := by unfold no_epoch_alias; infer_instance
 
-theorem validEF_of (cs : ColumnSeries) (hv : ValidSeries cs) (h1 : epoch_first cs) (h3 : no_epoch_alias cs) :
-    ∃ e rest, cs.cols = e :: rest ∧ ValidEF e rest ∧ ∀ c ∈ rest, (getterTable.lookup c.typ).isSome := by
-  obtain ⟨hnd, ⟨c0, hc0, hc0n, hc0t⟩, hall⟩ := hv
-  cases hcols : cs.cols with
-  | nil => simp [epoch_first, hcols] at h1
-  | cons e rest =>
-    have hen : e.name = "Epoch" := by simpa [epoch_first, hcols] using h1
-    rw [hcols] at hnd hc0 hall
-    have hlen : cs.len = e.elems.length := by simp [ColumnSeries.len, hcols]
-    have hce : c0 = e := by
-      rcases List.mem_cons.mp hc0 with h | h
-      · exact h
-      · exfalso
-        simp only [List.map_cons, List.nodup_cons] at hnd
-        exact hnd.1 (List.mem_map.mpr ⟨c0, h, by rw [hc0n, hen]⟩)
-    refine ⟨e, rest, rfl, ⟨hen, by rw [← hce]; exact hc0t, hnd, ?_, ?_⟩, ?_⟩
-    · intro c hc
-      have := hall c hc
-      exact ⟨by rw [← hlen]; exact this.2.1, this.2.2⟩
-    · intro c hc
-      apply h3 c (by rw [hcols]; simp [hc])
-      intro h
-      simp only [List.map_cons, List.nodup_cons] at hnd
-      exact hnd.1 (List.mem_map.mpr ⟨c, hc, by rw [h, hen]⟩)
-    · intro c hc
-      exact (hall c (by simp [hc])).1
+/-- the columns with the `Epoch` column moved to the front (both readers add Epoch first) -/
+def epochFront (cols : List Column) : List Column :=
+  cols.filter (fun c => c.name == "Epoch") ++ cols.filter (fun c => !(c.name == "Epoch"))
 
+theorem filter_none (l : List Column) (p : Column → Bool) (h : ∀ c ∈ l, p c = false) : l.filter p = [] := by
+  rw [List.filter_eq_nil_iff]; intro c hc; simp [h c hc]
+
+theorem epochFront_split (pre post : List Column) (e : Column) (he : e.name = "Epoch")
+    (hothers : ∀ c ∈ pre ++ post, c.name ≠ "Epoch") :
+    epochFront (pre ++ e :: post) = e :: (pre ++ post) := by
+  have hp : ∀ c ∈ pre, (c.name == "Epoch") = false := fun c hc => by simpa using hothers c (by simp [hc])
+  have hq : ∀ c ∈ post, (c.name == "Epoch") = false := fun c hc => by simpa using hothers c (by simp [hc])
+  have he' : (e.name == "Epoch") = true := by simp [he]
+  unfold epochFront
+  rw [List.filter_append, List.filter_append, List.filter_cons, List.filter_cons,
+    filter_none pre _ hp, filter_none post _ hq, he']
+  have h1 : pre.filter (fun c => !(c.name == "Epoch")) = pre :=
+    List.filter_eq_self.mpr (fun c hc => by simp [hp c hc])
+  have h2 : post.filter (fun c => !(c.name == "Epoch")) = post :=
+    List.filter_eq_self.mpr (fun c hc => by simp [hq c hc])
+  rw [h1, h2]
+  simp
+
+/-- a valid series splits at its Epoch column -/
+theorem valid_split (cs : ColumnSeries) (hv : ValidSeries cs) :
+    ∃ pre e post, cs.cols = pre ++ e :: post ∧ ValidEF e (pre ++ post) ∧
+      (∀ c ∈ pre ++ post, (getterTable.lookup c.typ).isSome) ∧
+      epochFront cs.cols = e :: (pre ++ post) ∧ cs.len = e.elems.length := by
+  obtain ⟨hnd, ⟨e, he, hen, het⟩, hall⟩ := hv
+  obtain ⟨pre, post, hsplit⟩ := List.append_of_mem he
+  rw [hsplit] at hnd
+  have hnd' := nodup_middle pre post e hnd
+  have hlen : cs.len = e.elems.length := (hall e he).2.1.symm
+  have hmem : ∀ c ∈ e :: (pre ++ post), c ∈ cs.cols := by
+    intro c hc; rw [hsplit]; simp only [List.mem_cons, List.mem_append] at hc ⊢
+    rcases hc with h | h | h
+    · exact Or.inr (Or.inl h)
+    · exact Or.inl h
+    · exact Or.inr (Or.inr h)
+  have hvef : ValidEF e (pre ++ post) := ⟨hen, het, hnd', fun c hc => by
+    have := hall c (hmem c hc)
+    exact ⟨by rw [← hlen]; exact this.2.1, this.2.2⟩⟩
+  refine ⟨pre, e, post, hsplit, hvef, fun c hc => (hall c (hmem c (by simp [hc]))).1, ?_, hlen⟩
+  rw [hsplit]
+  exact epochFront_split pre post e hen hvef.rest_ne
+
+theorem epochFront_of_first (cs : ColumnSeries) (hv : ValidSeries cs) (h : epoch_first cs) :
+    epochFront cs.cols = cs.cols := by
+  obtain ⟨pre, e, post, hsplit, hvef, _, hfront, _⟩ := valid_split cs hv
+  rw [hfront, hsplit]
+  cases pre with
+  | nil => rfl
+  | cons c p =>
+    exfalso
+    have : c.name = "Epoch" := by simpa [epoch_first, hsplit] using h
+    exact hvef.rest_ne c (by simp) this
 
 end Mkts.Rows
